@@ -241,6 +241,8 @@ func (rule *RuleShellcheck) runShellcheck(src, shell string, pos *Pos) {
 			// Consider the first line is setup for running shell which was implicitly added for better check
 			line := err.Line - 1
 			msg := strings.TrimSuffix(err.Message, ".") // Trim period aligning style of error message
+			// Error messages must be in one line. The message comes from an external process
+			msg = strings.NewReplacer("\r\n", " ", "\n", " ", "\r", " ", "\u2028", " ", "\u2029", " ").Replace(msg)
 			rule.Errorf(pos, "shellcheck reported issue in this script: SC%d:%s:%d:%d: %s", err.Code, err.Level, line, err.Column, msg)
 		}
 
